@@ -447,7 +447,54 @@ func readBacks(ops structs.TxnOps) structs.TxnOps {
 // guardMustFail is an independent statement of when a KV guard has to fail, evaluated on the state the
 // operation sees (the twin has applied the preceding operations of the list).
 func guardMustFail(s *state.Store, op *structs.TxnOp) (bool, string) {
-	if op == nil || op.KV == nil {
+	if op == nil {
+		return false, ""
+	}
+	// catalog verbs: compare-and-set / compare-and-delete against the entity's modify index
+	casRule := func(what string, exists bool, cur, given uint64, isDelete bool) (bool, string) {
+		switch {
+		case isDelete && exists && cur != given:
+			return true, fmt.Sprintf("the given index %d is not the modify index %d of the %s", given, cur, what)
+		case !isDelete && given == 0 && exists:
+			return true, fmt.Sprintf("index 0 means create-only and the %s exists", what)
+		case !isDelete && given != 0 && (!exists || cur != given):
+			return true, fmt.Sprintf("the given index %d is not the modify index of the %s", given, what)
+		}
+		return false, ""
+	}
+	switch {
+	case op.Node != nil && (op.Node.Verb == api.NodeCAS || op.Node.Verb == api.NodeDeleteCAS):
+		_, n, err := s.GetNode(op.Node.Node.Node, nil, op.Node.Node.PeerName)
+		if err != nil {
+			return false, ""
+		}
+		var cur uint64
+		if n != nil {
+			cur = n.ModifyIndex
+		}
+		return casRule("node", n != nil, cur, op.Node.Node.ModifyIndex, op.Node.Verb == api.NodeDeleteCAS)
+	case op.Service != nil && (op.Service.Verb == api.ServiceCAS || op.Service.Verb == api.ServiceDeleteCAS):
+		_, e, err := s.NodeService(nil, op.Service.Node, op.Service.Service.ID, nil, op.Service.Service.PeerName)
+		if err != nil {
+			return false, ""
+		}
+		var cur uint64
+		if e != nil {
+			cur = e.ModifyIndex
+		}
+		return casRule("service instance", e != nil, cur, op.Service.Service.ModifyIndex, op.Service.Verb == api.ServiceDeleteCAS)
+	case op.Check != nil && (op.Check.Verb == api.CheckCAS || op.Check.Verb == api.CheckDeleteCAS):
+		_, e, err := s.NodeCheck(op.Check.Check.Node, op.Check.Check.CheckID, nil, op.Check.Check.PeerName)
+		if err != nil {
+			return false, ""
+		}
+		var cur uint64
+		if e != nil {
+			cur = e.ModifyIndex
+		}
+		return casRule("check", e != nil, cur, op.Check.Check.ModifyIndex, op.Check.Verb == api.CheckDeleteCAS)
+	}
+	if op.KV == nil {
 		return false, ""
 	}
 	d := op.KV.DirEnt
